@@ -194,8 +194,14 @@ func (jenny RawTypes) defaultValuesForStructType(structType ast.Type, packageMap
 				defaults.Set(field.Name, jenny.defaultValuesForReference(field.Type, packageMapper))
 				continue
 			case ast.KindStruct:
-				defaultMap := field.Type.Default.(map[string]interface{})
-				defaults.Set(field.Name, jenny.defaultValueForStructs(field.Type.AsStruct(), orderedmap.FromMap(defaultMap)))
+				// a default that is not an object can not be spread over the
+				// struct's fields: it is emitted as it is, like any other default.
+				if defaultMap, ok := field.Type.Default.(map[string]interface{}); ok {
+					defaults.Set(field.Name, jenny.defaultValueForStructs(field.Type.AsStruct(), orderedmap.FromMap(defaultMap)))
+					continue
+				}
+
+				defaults.Set(field.Name, field.Type.Default)
 				continue
 			default:
 				defaults.Set(field.Name, field.Type.Default)
